@@ -61,6 +61,45 @@ pub fn build_cases(w: &World, thorough: bool) -> Vec<Case> {
     for e in l1.iter().chain(l2.iter()) {
         cases.push(Case { code: e.render(), expect: inf.infer(e), family: "expression" });
     }
+    // composite constant exponents (exact rational arithmetic in the reference)
+    {
+        fn norm((n, d): (i128, i128)) -> (i128, i128) {
+            let g = crate::units::gcd(n.abs(), d.abs()).max(1);
+            let (n, d) = (n / g, d / g);
+            if d < 0 { (-n, -d) } else { (n, d) }
+        }
+        let ex_atoms: Vec<(String, (i128, i128))> = vec![("2".into(), (2, 1)), ("3".into(), (3, 1)), ("(-1)".into(), (-1, 1)), ("(1/3)".into(), (1, 3)), ("(1/2)".into(), (1, 2)), ("5".into(), (5, 1))];
+        let mut exps: Vec<(String, (i128, i128))> = vec![];
+        for (ta, a) in &ex_atoms {
+            exps.push((format!("(-{ta})"), norm((-a.0, a.1))));
+            for (tb, b) in &ex_atoms {
+                exps.push((format!("({ta} + {tb})"), norm((a.0 * b.1 + b.0 * a.1, a.1 * b.1))));
+                exps.push((format!("({ta} - {tb})"), norm((a.0 * b.1 - b.0 * a.1, a.1 * b.1))));
+                exps.push((format!("({ta} * {tb})"), norm((a.0 * b.0, a.1 * b.1))));
+                if b.0 != 0 {
+                    exps.push((format!("({ta} / {tb})"), norm((a.0 * b.1, a.1 * b.0))));
+                }
+            }
+        }
+        let d1 = exps.clone();
+        for (ta, a) in d1.iter().step_by(if thorough { 1 } else { 5 }) {
+            for (tb, b) in &ex_atoms {
+                exps.push((format!("({ta} - {tb})"), norm((a.0 * b.1 - b.0 * a.1, a.1 * b.1))));
+                exps.push((format!("({tb} - {ta})"), norm((b.0 * a.1 - a.0 * b.1, a.1 * b.1))));
+                exps.push((format!("({ta} * {tb})"), norm((a.0 * b.0, a.1 * b.1))));
+            }
+        }
+        for base in [X::Unit("m"), X::Unit("N"), X::Bin('/', Box::new(X::Unit("km")), Box::new(X::Unit("hour")))] {
+            for (t, r) in &exps {
+                let text: &'static str = Box::leak(t.clone().into_boxed_str());
+                let e = X::Pow(Box::new(base.clone()), text, *r);
+                cases.push(Case { code: e.render(), expect: inf.infer(&e), family: "constant exponent expression" });
+                // ... and where the result type is pinned by an addition
+                let sum = X::Bin('+', Box::new(e.clone()), Box::new(X::Pow(Box::new(base.clone()), "1", (1, 1))));
+                cases.push(Case { code: sum.render(), expect: inf.infer(&sum), family: "constant exponent expression" });
+            }
+        }
+    }
     // annotated definitions
     for e in &l1 {
         let te = inf.infer(e);
